@@ -2270,6 +2270,14 @@ val_arr:
 	}
 
 done:
+	if (!rrv && nargs >= 2)
+	{
+		/* the source is nil or empty. the destination is a separate variable
+		 * and must still end up holding no element */
+		rrv = (v_type == HAWK_VAL_ARR)? hawk_rtx_makearrval(rtx, -1): hawk_rtx_makemapval(rtx);
+		if (HAWK_UNLIKELY(!rrv)) return -1;
+	}
+
 	r = hawk_rtx_makeintval(rtx, rv);
 	if (HAWK_UNLIKELY(!r)) return -1;
 
@@ -2277,7 +2285,7 @@ done:
 	{
 		int x;
 		/* rrv can be NULL when a jump has been made for an empty source
-		 * at the beginning of this fucntion */
+		 * in the single-argument form */
 		hawk_rtx_refupval (rtx, rrv);
 		x = hawk_rtx_setrefval(rtx, (hawk_val_ref_t*)hawk_rtx_getarg(rtx, (nargs >= 2)), rrv);
 		hawk_rtx_refdownval (rtx, rrv);
